@@ -223,7 +223,16 @@ func init() {
 	}
 	// Responder.Hijack(): hands over the connection; no effect on modelled state
 	models["reservoir/proxy/responder.Responder.Hijack"] = func(x *Exec, fr *Frame, st *State, pc *preparedCall, k func(*State, []Value)) {
-		k(st, x.freshResults(st, pc.fn.Type().(*types.Signature), "hijack"))
+		res := x.freshResults(st, pc.fn.Type().(*types.Signature), "hijack")
+		// after a successful Hijack nothing written through the responder reaches the client
+		if len(res) == 3 {
+			if e, ok := res[2].(OpaqueV); ok {
+				r := x.asTermAny(pc.recv)
+				cur := x.ghostSel(st, "hijacked", r)
+				x.ghostSet(st, "hijacked", r, Ite(Eq(e.T, IntLit(0)), IntLit(1), cur))
+			}
+		}
+		k(st, res)
 	}
 	// bufio.NewReader(rd): a new buffered reader over rd (ghost bufsrc: what it reads from)
 	models["bufio.NewReader"] = func(x *Exec, fr *Frame, st *State, pc *preparedCall, k func(*State, []Value)) {
